@@ -123,6 +123,17 @@ func (vc *VC) execInstr(fr *Frame, instr ssa.Instruction, st *State) {
 		v := vc.value(fr, x.X)
 		vc.setVal(fr, x, Val{T: x.Type(), L: v.L})
 	case *ssa.MakeInterface:
+		if _, isPtr := x.X.Type().Underlying().(*types.Pointer); isPtr {
+			if d, interior := fr.ptrs[x.X]; interior {
+				if _, isAlloc := x.X.(*ssa.Alloc); !isAlloc {
+					// interface holding an interior pointer: remember the location statically
+					id := vc.freshConst("iptr", sBV64)
+					vc.ifacePtr[id] = d
+					vc.setVal(fr, x, Val{T: x.Type(), L: []string{bvLit(64, uint64(vc.w.tags.tag(x.X.Type()))), id}})
+					return
+				}
+			}
+		}
 		vc.setVal(fr, x, vc.makeInterface(st, vc.value(fr, x.X), x.X, x.Type()))
 	case *ssa.TypeAssert:
 		vc.execTypeAssert(fr, x, st)
@@ -265,7 +276,7 @@ func (vc *VC) execUnOp(fr *Frame, x *ssa.UnOp, st *State) {
 		}
 		v := vc.loadDesc(st, d)
 		vc.setVal(fr, x, v)
-		vc.assumeWellFormed(st, fr.vals[x])
+		vc.assumeWellFormedAt(st, fr.vals[x], vc.loadBound(st, d))
 	case token.NOT:
 		vc.setVal(fr, x, Val{T: x.Type(), L: []string{not(vc.value(fr, x.X).L[0])}})
 	case token.SUB:
@@ -286,6 +297,38 @@ func (vc *VC) execUnOp(fr *Frame, x *ssa.UnOp, st *State) {
 // or from parameters: pointers are below the allocation counter, slices have
 // 0 <= len <= cap and a sane extent.
 func (vc *VC) assumeWellFormed(st *State, v Val) {
+	vc.assumeWellFormedAt(st, v, st.alloc)
+}
+
+// loadBound: values read from a heap that is unchanged since function entry
+// were allocated before entry.
+func (vc *VC) loadBound(st *State, d *PtrDesc) string {
+	if vc.entry == nil {
+		return st.alloc
+	}
+	if d.Root == rGlobal {
+		gi := vc.w.globalInfoOf(d.Glob)
+		if gi.immutable {
+			return vc.entry.alloc
+		}
+		t := d.Glob.Type().(*types.Pointer).Elem()
+		for k := range nestedLeafSorts(t) {
+			hn := fmt.Sprintf("%s!%d", globHeapName(globalName(d.Glob)), k)
+			if cur, ok := st.heap.m[hn]; ok && cur != smtName(hn) {
+				return st.alloc
+			}
+		}
+		return vc.entry.alloc
+	}
+	for _, ll := range vc.leafLocs(d) {
+		if cur, ok := st.heap.m[ll.name]; ok && cur != smtName(ll.name) {
+			return st.alloc
+		}
+	}
+	return vc.entry.alloc
+}
+
+func (vc *VC) assumeWellFormedAt(st *State, v Val, bound string) {
 	lay := layoutOf(v.T)
 	for k, l := range lay.Leaves {
 		if l.InArr {
@@ -293,17 +336,17 @@ func (vc *VC) assumeWellFormed(st *State, v Val) {
 		}
 		switch l.Kind {
 		case lkRef:
-			vc.assume(st.cond, app("bvult", v.L[k], st.alloc))
+			vc.assume(st.cond, app("bvult", v.L[k], bound))
 		case lkSlLen:
 			ln, cp, off := v.L[k], v.L[k+1], v.L[k-1]
 			vc.assume(st.cond, and(app("bvsle", bvLit(64, 0), ln), app("bvsle", ln, cp), app("bvslt", cp, bvLit(64, 1<<40)),
 				app("bvsle", bvLit(64, 0), off), app("bvslt", off, bvLit(64, 1<<40))))
 		case lkSlAid:
-			vc.assume(st.cond, app("bvult", "((_ zero_extend 16) ((_ extract 63 16) "+v.L[k]+"))", st.alloc))
+			vc.assume(st.cond, app("bvult", "((_ zero_extend 16) ((_ extract 63 16) "+v.L[k]+"))", bound))
 		case lkStrLen:
 			vc.assume(st.cond, and(app("bvsle", bvLit(64, 0), v.L[k]), app("bvslt", v.L[k], bvLit(64, 1<<40))))
 		case lkIfData:
-			vc.assume(st.cond, app("bvult", v.L[k], st.alloc))
+			vc.assume(st.cond, app("bvult", v.L[k], bound))
 		}
 	}
 }
@@ -394,7 +437,9 @@ func (vc *VC) makeInterface(st *State, v Val, src ssa.Value, it types.Type) Val 
 	ref := vc.allocRef(st)
 	d := &PtrDesc{Root: rObj, Ref: ref, RootT: boxType(v.T), T: v.T}
 	vc.storeDesc(st, d, v)
-	return Val{T: it, L: []string{tag, ref}}
+	iv := Val{T: it, L: []string{tag, ref}}
+	vc.errBoxAxioms(st, iv, v)
+	return iv
 }
 
 // boxType: boxed values of type T live in their own heap family.
